@@ -161,7 +161,14 @@ where
                     // sending a non-closing detach. In this case, the partner MUST
                     // signal that it has closed the link by reattaching and then sending
                     // a closing detach.
-                    reattach_and_then_close(self).await?;
+                    //
+                    // What the peer's closing detach said must survive that exchange
+                    let remote_error = remote_detach.error;
+                    let reattached = reattach_and_then_close(self).await;
+                    if let Some(error) = remote_error {
+                        return Err(DetachError::RemoteClosedWithError(error));
+                    }
+                    reattached?;
 
                     // A peer closes a link by sending the detach frame with the handle for the
                     // specified link, and the closed flag set to true. The partner will destroy
@@ -175,7 +182,12 @@ where
             LinkState::DetachSent => {
                 let remote_detach = recv_remote_detach(self).await?;
                 if remote_detach.closed {
-                    reattach_and_then_close(self).await?;
+                    let remote_error = remote_detach.error;
+                    let reattached = reattach_and_then_close(self).await;
+                    if let Some(error) = remote_error {
+                        return Err(DetachError::RemoteClosedWithError(error));
+                    }
+                    reattached?;
                     Err(DetachError::ClosedByRemote)
                 } else {
                     self.link_mut().on_incoming_detach(remote_detach)
@@ -226,7 +238,13 @@ where
                     // back by `on_incoming_detach`
                     self.link_mut().on_incoming_detach(remote_detach)
                 } else {
-                    reattach_and_then_close(self).await // FIXME: cancel safe? if oneshot channel is cancel safe
+                    // What the peer's (non-closing) detach said must survive the exchange
+                    let remote_error = remote_detach.error;
+                    let result = reattach_and_then_close(self).await; // FIXME: cancel safe? if oneshot channel is cancel safe
+                    match remote_error {
+                        Some(error) => Err(DetachError::RemoteDetachedWithError(error)),
+                        None => result,
+                    }
                 }
             }
             LinkState::DetachSent => {
